@@ -108,6 +108,8 @@ var labelSets = []labelSet{
 	{name: "k:v,w", str: map[string][]string{"k": {"v", "w"}}},
 	{name: "k:w j:v", str: map[string][]string{"k": {"w"}, "j": {"v"}}},
 	{name: "j:w", str: map[string][]string{"j": {"w"}}},
+	// one expression of a list matches two labels, another none: every expression needs its own match
+	{name: "k:v j:v", str: map[string][]string{"k": {"v"}, "j": {"v"}}},
 	{name: "k:v=w", str: map[string][]string{"k": {"v=w"}}},
 	{name: "n:5", num: map[string][]int64{"n": {5}}},
 	{name: "n:2,9", num: map[string][]int64{"n": {2, 9}}},
